@@ -104,6 +104,10 @@ func (e *Env) GetValue(symbol string) (reflect.Value, error) {
 		var err error
 		value, err = externalLookup.Get(symbol)
 		if err == nil {
+			if !value.IsValid() {
+				// a lookup answering the zero reflect.Value without an error: nil, as DefineValue stores it
+				value = NilValue
+			}
 			return value, nil
 		}
 	}
